@@ -40,6 +40,11 @@ CHECKS = {
     text="Every depth-1 program over the partition-sensitive operator families (reductions, groupby aggregations, joins of all kinds, concat, sort / set_index, cumulative, shift / diff / ffill, drop_duplicates / unique / value_counts / nlargest, aligned column arithmetic) is executed under EVERY layout TLC enumerates for a small table (all non-decreasing cut sequences, so empty partitions at the front, middle and end are included), deeper programs under seeded layouts, with an independently partitioned second input. TLC accepts a result only if it has the reference's schema and rows (as a sequence where the specification defines the order, else as a bag; index labels where defined; sortedness for top-level sorts) or is an explicit refusal the specification names for window operations.",
     note="Trusted: TLC; pandas as the definition of the expected value (the property's own wording); float64 columns with NaN as NULL. groupby apply/transform, rolling, resample, merge_asof, loc are not yet in the program space.",
     design="5.1 C02"),
+ "C10": dict(
+    technique="TLC-enumerated programs (QueryGen focus knobs) x TLC-enumerated knob grids (QueryGen!KnobGrid) x partition shapes straddling the planner thresholds; TLC validates the result under every knob tuple / fuse setting against the default-knob execution",
+    text="Programs containing reductions, groupby aggregations (incl. dropna=False), merges of every kind, sort / set_index, shuffles and drop_duplicates / unique / value_counts are executed on 18x17-row tables with (1..9) x (1..17) partitions under knob tuples drawn from the TLC-enumerated grids (split_every incl. False, split_out incl. True, shuffle_method tasks/disk, max_branch, merge broadcast None/True/False/bias and npartitions hints taken systematically, sort npartitions / upsample) with fuse on and off; TLC accepts each result only if it equals the default-knob result up to the row order / index labels the specification leaves undefined.",
+    note="Trusted: TLC; the default-knob execution as reference (its own correctness is C01/C02's business). p2p shuffle cannot run here. Knob tuples per program are seeded samples of the grid (the merge broadcast x npartitions sub-grid is exhaustive).",
+    design="5.1 C10"),
 }
 
 def main():
